@@ -28,6 +28,8 @@ enum Knob {
     RenameAll(RenameAll),
     Deny(Deny),
     Validate,
+    /// `validate` with a function that returns the container's own error type
+    ValidateSame,
     Rename(usize),
     DefaultTrait(usize),
     DefaultExpr(usize),
@@ -37,6 +39,12 @@ enum Knob {
     MissingFn(usize),
     ErrB(usize),
     Optional(usize),
+    /// `missing_field_error` function returning a foreign error
+    MissingForeign(usize),
+    /// a `#[serde(rename = ..)]` helper attribute on the field (no effect on keys)
+    SerdeRename(usize),
+    /// the field is a `PhantomData` marker (a field like any other: it has a key)
+    Phantom(usize),
 }
 
 fn knobs(nfields: usize) -> Vec<Knob> {
@@ -45,7 +53,9 @@ fn knobs(nfields: usize) -> Vec<Knob> {
         Knob::RenameAll(RenameAll::Lower),
         Knob::Deny(Deny::Default),
         Knob::Deny(Deny::Custom),
+        Knob::Deny(Deny::CustomForeign),
         Knob::Validate,
+        Knob::ValidateSame,
     ];
     for i in 0..nfields {
         k.extend([
@@ -61,7 +71,11 @@ fn knobs(nfields: usize) -> Vec<Knob> {
             Knob::MissingFn(i),
             Knob::ErrB(i),
             Knob::Optional(i),
+            Knob::SerdeRename(i),
         ]);
+        if i < 2 {
+            k.extend([Knob::MissingForeign(i), Knob::Phantom(i)]);
+        }
     }
     k
 }
@@ -89,6 +103,13 @@ fn apply(mut s: StructSpec, k: Knob) -> Option<StructSpec> {
             }
             s.validate = true
         }
+        Knob::ValidateSame => {
+            if s.validate {
+                return None;
+            }
+            s.validate = true;
+            s.same_err = true
+        }
         Knob::Rename(i) => {
             if s.fields[i].rename.is_some() {
                 return None;
@@ -96,7 +117,9 @@ fn apply(mut s: StructSpec, k: Knob) -> Option<StructSpec> {
             s.fields[i].rename = Some(format!("ren_{}", ["a", "b", "c", "d"][i]))
         }
         Knob::DefaultTrait(i) | Knob::DefaultExpr(i) => {
-            if s.fields[i].default != DefaultSpec::None {
+            if s.fields[i].default != DefaultSpec::None
+                || (s.fields[i].ty == Ty::Phantom && matches!(k, Knob::DefaultExpr(_)))
+            {
                 return None;
             }
             s.fields[i].default =
@@ -109,7 +132,7 @@ fn apply(mut s: StructSpec, k: Knob) -> Option<StructSpec> {
             s.fields[i].skip = true
         }
         Knob::Map(i) => {
-            if s.fields[i].map {
+            if s.fields[i].map || s.fields[i].ty == Ty::Phantom {
                 return None;
             }
             s.fields[i].map = true
@@ -138,6 +161,29 @@ fn apply(mut s: StructSpec, k: Knob) -> Option<StructSpec> {
             }
             s.fields[i].ty = opt(pu8())
         }
+        Knob::MissingForeign(i) => {
+            if s.fields[i].missing_fn {
+                return None;
+            }
+            s.fields[i].missing_fn = true;
+            s.fields[i].missing_foreign = true
+        }
+        Knob::SerdeRename(i) => {
+            if s.fields[i].serde_rename.is_some() {
+                return None;
+            }
+            // the name serde would use collides with nothing, or — for the middle field — with
+            // the key of the first field, which must keep its owner
+            s.fields[i].serde_rename = Some(if i == 1 { "fa_x".to_string() } else { format!("serde_{i}") })
+        }
+        Knob::Phantom(i) => {
+            let f = &s.fields[i];
+            if f.ty != pu8() || f.conv != Conv::None || f.map || f.default == DefaultSpec::Expr {
+                return None;
+            }
+            // written without the probe wrapper: the declared type is literally `PhantomData<..>`
+            s.fields[i].ty = Ty::Phantom
+        }
     }
     Some(s)
 }
@@ -163,10 +209,11 @@ fn group_a(cat: &mut Catalogue, tier: Tier) {
     if tier == Tier::Thorough {
         // structured triples: two knobs on one field + one container knob, and two container
         // knobs + one field knob (three attributes interacting on the same datum)
-        let container: Vec<Knob> = ks.iter().copied().filter(|k| matches!(k, Knob::RenameAll(_) | Knob::Deny(_) | Knob::Validate)).collect();
+        let container: Vec<Knob> = ks.iter().copied().filter(|k| matches!(k, Knob::RenameAll(_) | Knob::Deny(_) | Knob::Validate | Knob::ValidateSame)).collect();
         let field_of = |k: &Knob| -> Option<usize> {
             match k {
                 Knob::Rename(i) | Knob::DefaultTrait(i) | Knob::DefaultExpr(i) | Knob::Skip(i) | Knob::Map(i) | Knob::MissingFn(i) | Knob::ErrB(i) | Knob::Optional(i) => Some(*i),
+                Knob::MissingForeign(i) | Knob::SerdeRename(i) | Knob::Phantom(i) => Some(*i),
                 Knob::Conv(i, _) => Some(*i),
                 _ => None,
             }
@@ -234,6 +281,27 @@ fn group_a(cat: &mut Catalogue, tier: Tier) {
             (Knob::Skip(0), Knob::Map(0)),
             (Knob::Skip(2), Knob::Map(2)),
             (Knob::DefaultTrait(0), Knob::Map(0)),
+            // foreign errors from the custom functions: the derive must obey the answer of that merge
+            (Knob::MissingForeign(0), Knob::Deny(Deny::CustomForeign)),
+            (Knob::MissingForeign(1), Knob::Conv(0, Conv::TryFrom { by_ref: false })),
+            (Knob::MissingForeign(0), Knob::MissingFn(1)),
+            (Knob::Deny(Deny::CustomForeign), Knob::RenameAll(RenameAll::Camel)),
+            (Knob::Deny(Deny::CustomForeign), Knob::Validate),
+            // a validate function whose error type is the container's own: still handed over
+            (Knob::ValidateSame, Knob::Deny(Deny::Default)),
+            (Knob::ValidateSame, Knob::Conv(1, Conv::TryFrom { by_ref: false })),
+            (Knob::ValidateSame, Knob::MissingFn(0)),
+            (Knob::ValidateSame, Knob::ErrB(1)),
+            // helper attributes of other derives next to deserr's own
+            (Knob::SerdeRename(1), Knob::Deny(Deny::Default)),
+            (Knob::SerdeRename(0), Knob::Rename(0)),
+            (Knob::SerdeRename(2), Knob::RenameAll(RenameAll::Camel)),
+            // markers are fields: they have a key, it is accepted and required
+            (Knob::Phantom(0), Knob::Deny(Deny::Default)),
+            (Knob::Phantom(1), Knob::Deny(Deny::Custom)),
+            (Knob::Phantom(1), Knob::Rename(1)),
+            (Knob::Phantom(0), Knob::DefaultTrait(0)),
+            (Knob::Phantom(1), Knob::Skip(1)),
         ];
         for (n, &(k1, k2)) in pairs.iter().enumerate() {
             let mut s = apply(apply(base.clone(), k1).unwrap(), k2).unwrap();
@@ -368,6 +436,7 @@ pub fn unit_enum(n: usize, ra: Option<RenameAll>, rename_second: bool) -> EnumSp
         deny: Deny::No,
         validate: false,
         concrete: false,
+        same_err: false,
         variants: (0..n)
             .map(|i| VariantSpec {
                 ident: names[i].to_string(),
@@ -387,6 +456,7 @@ pub fn tagged_enum(tag: &str) -> EnumSpec {
         deny: Deny::No,
         validate: false,
         concrete: false,
+        same_err: false,
         variants: vec![
             VariantSpec { ident: "UnitV".into(), rename: None, rename_all: None, fields: None },
             VariantSpec {
@@ -675,6 +745,7 @@ fn group_d(cat: &mut Catalogue, tier: Tier) {
             deny: Deny::Default,
             validate: false,
             concrete: false,
+            same_err: false,
             variants: vec![
                 VariantSpec { ident: "Leaf".into(), rename: None, rename_all: None, fields: None },
                 VariantSpec {
@@ -695,14 +766,14 @@ fn group_e(cat: &mut Catalogue, _tier: Tier) {
         for fallible in [false, true] {
             for by_ref in [false, true] {
                 for validate in [false, true] {
-                    let i = cat.add(Item::Conv(ConvSpec { via: via.clone(), fallible, by_ref, validate, concrete: false }));
+                    let i = cat.add(Item::Conv(ConvSpec { via: via.clone(), fallible, by_ref, validate, concrete: false, same_err: false }));
                     cat.root(p(Ty::Item(i)), "E", format!("container conv fallible={fallible} by_ref={by_ref} validate={validate}"));
                 }
             }
         }
     }
     // conversions nested: a struct field of a container-try_from type, a Vec of them
-    let c = cat.add(Item::Conv(ConvSpec { via: pu8(), fallible: true, by_ref: false, validate: true, concrete: false }));
+    let c = cat.add(Item::Conv(ConvSpec { via: pu8(), fallible: true, by_ref: false, validate: true, concrete: false, same_err: false }));
     let outer = st(vec![FieldSpec::plain("cv", p(Ty::Item(c))), FieldSpec::plain("fz", pu8())]);
     let oi = cat.add(Item::Struct(outer));
     cat.root(p(Ty::Item(oi)), "E", "struct with a field of container-try_from type");
@@ -793,6 +864,126 @@ fn group_g(cat: &mut Catalogue, _tier: Tier) {
     cat.root(p(Ty::Item(i)), "G", "tests::tagged_enum_plus_rename");
 }
 
+/// Group H: shapes suggested by the fourth round of independently seeded changes.
+fn group_h(cat: &mut Catalogue, tier: Tier) {
+    // Option around a content that itself accepts null: null is None, never Some(content)
+    for (t, note) in [
+        (opt(p(sc(Scalar::Unit))), "Option<()>"),
+        (opt(opt(pu8())), "Option<Option<_>>"),
+        (opt(p(Ty::Json)), "Option<serde_json::Value>"),
+        (opt(p(Ty::Phantom)), "Option<PhantomData>"),
+        (opt(Ty::Phantom), "Option<PhantomData> (bare)"),
+        (opt(bx(opt(pu8()))), "Option<Box<Option<_>>>"),
+    ] {
+        cat.root(p(t.clone()), "H", note);
+        cat.root(p(vec_of(t.clone())), "H", format!("Vec<{note}>"));
+        let mut s = st(vec![FieldSpec::plain("fa_x", t.clone()), FieldSpec::plain("fb", pu8())]);
+        s.fields[0].default = DefaultSpec::Trait;
+        let i = cat.add(Item::Struct(s));
+        cat.root(p(Ty::Item(i)), "H", format!("struct with defaulted {note} field"));
+    }
+    cat.root(p(Ty::Phantom), "H", "PhantomData");
+    // variants whose names spell a number or a boolean: only the *string* selects them
+    {
+        let mut e = unit_enum(4, None, false);
+        for (v, r) in e.variants.iter_mut().zip(["1", "true", "-1", "null"]) {
+            v.rename = Some(r.to_string());
+        }
+        let i = cat.add(Item::Enum(e));
+        cat.root(p(Ty::Item(i)), "H", "unit enum with variants named 1 / true / -1 / null");
+        for deny in [Deny::No, Deny::Default] {
+            let mut e = tagged_enum("kind");
+            e.deny = deny;
+            for (v, r) in e.variants.iter_mut().zip(["true", "1", "-1"]) {
+                v.rename = Some(r.to_string());
+            }
+            let i = cat.add(Item::Enum(e));
+            cat.root(p(Ty::Item(i)), "H", format!("tagged enum with variants named true / 1 / -1, {deny:?}"));
+        }
+    }
+    // generic derived structs (`needs_predicate` on the field of the parameter's type)
+    {
+        let inner = cat.add(Item::Struct(base3()));
+        for (t, note) in [
+            (pu8(), "P<u8>"),
+            (p(vec_of(pu8())), "Vec"),
+            (opt(pu8()), "Option"),
+            (p(Ty::Item(inner)), "derived struct"),
+        ] {
+            for deny in [Deny::No, Deny::Default] {
+                if tier == Tier::Quick && deny == Deny::Default && note != "derived struct" {
+                    continue;
+                }
+                let mut s = st(vec![FieldSpec::plain("fa_x", t.clone()), FieldSpec::plain("fbCap", pu8())]);
+                s.generic = true;
+                s.deny = deny;
+                s.rename_all = Some(RenameAll::Camel);
+                let i = cat.add(Item::Struct(s));
+                cat.root(p(Ty::Item(i)), "H", format!("generic struct instantiated with {note}, {deny:?}"));
+            }
+        }
+        // the same generic shape inside a Vec inside a tagged variant
+        let mut g = st(vec![FieldSpec::plain("fa_x", pu8()), FieldSpec::plain("fb", pu8())]);
+        g.generic = true;
+        g.deny = Deny::Default;
+        let gi = cat.add(Item::Struct(g));
+        let mut e = tagged_enum("kind");
+        e.variants[1].fields.as_mut().unwrap()[1].ty = p(vec_of(p(Ty::Item(gi))));
+        let i = cat.add(Item::Enum(e));
+        cat.root(p(Ty::Item(i)), "H", "tagged variant > Vec > generic struct");
+    }
+    // validate / container try_from whose function returns the container's own error type
+    {
+        let mut e = tagged_enum("kind");
+        e.validate = true;
+        e.same_err = true;
+        let i = cat.add(Item::Enum(e));
+        cat.root(p(Ty::Item(i)), "H", "tagged enum + validate returning the container's error type");
+        let mut e = unit_enum(3, None, false);
+        e.validate = true;
+        e.same_err = true;
+        let i = cat.add(Item::Enum(e));
+        cat.root(p(Ty::Item(i)), "H", "unit enum + validate returning the container's error type");
+        let inner2 = cat.add(Item::Struct(st(vec![FieldSpec::plain("fa_x", pu8()), FieldSpec::plain("fb", pu8())])));
+        for via in [pu8(), p(Ty::Item(inner2))] {
+            for (by_ref, validate) in [(false, false), (true, false), (false, true)] {
+                let i = cat.add(Item::Conv(ConvSpec { via: via.clone(), fallible: true, by_ref, validate, concrete: false, same_err: true }));
+                cat.root(p(Ty::Item(i)), "H", format!("container try_from returning the container's error type, by_ref={by_ref} validate={validate}"));
+                if !by_ref && !validate {
+                    cat.root(p(vec_of(p(Ty::Item(i)))), "H", "Vec of container try_from returning the container's error type");
+                    let outer = st(vec![FieldSpec::plain("cv", p(Ty::Item(i))), FieldSpec::plain("fz", pu8())]);
+                    let oi = cat.add(Item::Struct(outer));
+                    cat.root(p(Ty::Item(oi)), "H", "struct with a field of such a container try_from type");
+                }
+            }
+        }
+        // concrete error type spelled out
+        let i = cat.add(Item::Conv(ConvSpec { via: pu8(), fallible: true, by_ref: false, validate: true, concrete: true, same_err: true }));
+        cat.root(p(Ty::Item(i)), "H", "container try_from + validate, error = RecA, functions returning RecA");
+        let mut s = base3();
+        s.validate = true;
+        s.same_err = true;
+        s.concrete = true;
+        let i = cat.add(Item::Struct(s));
+        cat.root(p(Ty::Item(i)), "H", "struct with error = RecA and validate -> RecA");
+    }
+    // foreign errors from custom functions: nested, and next to a field-level error type
+    {
+        let mut inner = base3();
+        inner.deny = Deny::CustomForeign;
+        inner.fields[1].missing_fn = true;
+        inner.fields[1].missing_foreign = true;
+        let ii = cat.add(Item::Struct(inner));
+        cat.root(p(vec_of(p(Ty::Item(ii)))), "H", "Vec of struct with foreign custom functions");
+        let mut e = tagged_enum("kind");
+        e.deny = Deny::CustomForeign;
+        e.variants[1].fields.as_mut().unwrap()[0].missing_fn = true;
+        e.variants[1].fields.as_mut().unwrap()[0].missing_foreign = true;
+        let i = cat.add(Item::Enum(e));
+        cat.root(p(Ty::Item(i)), "H", "tagged enum with foreign custom functions");
+    }
+}
+
 pub fn build(tier: Tier) -> Catalogue {
     let mut cat = Catalogue::default();
     group_a(&mut cat, tier);
@@ -802,6 +993,7 @@ pub fn build(tier: Tier) -> Catalogue {
     group_e(&mut cat, tier);
     group_f(&mut cat, tier);
     group_g(&mut cat, tier);
+    group_h(&mut cat, tier);
     cat
 }
 
